@@ -34,7 +34,7 @@ def same_as(ctx, got, exp):
 
 def ds_op(ctx, struct, op, dim, args=None, attrs_kept=True):
     args = args or {}
-    ds, st = build(ctx, STRUCTS[struct])
+    ds, st = build(ctx, STRUCTS[struct], nan=bool(args.get('nan')))
     ds.attrs['title'] = 'T'
     ds.attrs['hist'] = [1]
     kind = LK[DIMS.index(dim)]
@@ -55,20 +55,20 @@ def ds_op(ctx, struct, op, dim, args=None, attrs_kept=True):
     elif op in ('ix-list',):
         idx = [ctx.choice('p0', n), ctx.choice('p1', n)]
         present = True
-    elif op == 'take_axis':
+    elif op in ('take_axis', 'take_axis-dspos'):
         qs = [ctx.label(kind, 'q%d' % j) for j in range(2)]
         present = all(find(L, q) is not None for q in qs)
         idx = list(qs)
     elif op == 'take_axis_pos':
         idx = [ctx.choice('p0', n), ctx.choice('p1', n)]
         present = True
-    elif op in ('reindex_axis', 'reindex_axis-axisobj'):
+    elif op in ('reindex_axis', 'reindex_axis-axisobj', 'reindex_axis-dspos'):
         qs = [ctx.label(kind, 'q%d' % j) for j in range(args.get('k', 2))]
         present = True
         idx = list(qs)
         if any(find(L, q) is None for q in qs) and any(dim not in r.dims for r in st['vars'].values()):
             pass
-    elif op in ('interp_axis', 'interp_axis-fills'):
+    elif op in ('interp_axis', 'interp_axis-fills', 'interp_axis-dspos'):
         qs = [ctx.real('q%d' % j) for j in range(args.get('k', 1))]
         fills = {'left': ctx.real('fl'), 'right': ctx.real('fr')} if op == 'interp_axis-fills' else {}
         present = True
@@ -128,6 +128,15 @@ def ds_op(ctx, struct, op, dim, args=None, attrs_kept=True):
             return ds.interp_axis(idx, axis=dim)
         if op == 'interp_axis-fills':
             return ds.interp_axis(idx, axis=dim, **fills)
+        # the dimension given by its position in the dataset (not in the variable)
+        if op == 'reindex_axis-dspos':
+            return ds.reindex_axis(idx, axis=pos)
+        if op == 'take_axis-dspos':
+            return ds.take_axis(idx, axis=pos)
+        if op == 'sort_axis-dspos':
+            return ds.sort_axis(axis=pos)
+        if op == 'interp_axis-dspos':
+            return ds.interp_axis(idx, axis=pos)
         raise ValueError(op)
 
     def varf(v):
@@ -159,6 +168,14 @@ def ds_op(ctx, struct, op, dim, args=None, attrs_kept=True):
             return v.interp_axis(idx, axis=dim)
         if op == 'interp_axis-fills':
             return v.interp_axis(idx, axis=dim, **fills)
+        if op == 'reindex_axis-dspos':
+            return v.reindex_axis(idx, axis=dim)
+        if op == 'take_axis-dspos':
+            return v.take_axis(idx, axis=dim)
+        if op == 'sort_axis-dspos':
+            return v.sort_axis(axis=dim)
+        if op == 'interp_axis-dspos':
+            return v.interp_axis(idx, axis=dim)
     r = ctx.call(dsf)
     if not present:
         return ctx.done(r == ('exc', 'IndexError'), r[1] if r[0] != 'ok' else ctx.observe(r[1]))
@@ -237,7 +254,7 @@ def ds_arith(ctx, struct, op, other):
     return ctx.done(ctx.AND(*oks), ctx.observe(res))
 
 
-def ds_join(ctx, struct, how, dim=None, align=False):
+def ds_join(ctx, struct, how, dim=None, align=False, free_other=False):
     """stack_ds / concatenate_ds of two datasets == stack / concatenate of each variable"""
     da = ctx.da
     ds1, st1 = build(ctx, STRUCTS[struct])
@@ -247,7 +264,8 @@ def ds_join(ctx, struct, how, dim=None, align=False):
     for i, (k, ref) in enumerate(st1['vars'].items()):
         ls = []
         for d, l in zip(ref.dims, ref.labels):
-            if d == dim:
+            if d == dim or free_other:
+                # free_other: the second dataset's labels on the other dimensions may differ too (refusal must be per variable)
                 if d not in lab2:
                     lab2[d] = ctx.labels(LK[DIMS.index(d)], len(l), 'M%s_' % d)
                 ls.append(lab2[d])
@@ -280,6 +298,10 @@ def ds_join(ctx, struct, how, dim=None, align=False):
             # documented: variables lacking the axis are refused
             return ctx.done(r[0] != 'ok' or True, r[1] if r[0] != 'ok' else None)
         exp = dict((k, ctx.call(lambda: da.concatenate([ds1[k], ds2[k]], axis=dim, **kw))) for k in have)
+        if any(e[0] != 'ok' for e in exp.values()):
+            # some variable cannot be concatenated (secondary labels differ): the dataset operation must refuse as well
+            bad = [e[1] for e in exp.values() if e[0] != 'ok']
+            return ctx.done(r[0] != 'ok' and r[1] in bad, r[1] if r[0] != 'ok' else ctx.observe(r[1]))
     if r[0] != 'ok':
         return ctx.done(False, r[1])
     res = r[1]
@@ -301,7 +323,7 @@ def templates():
     structs = ['a_x', 'a_xy', 'a_x-b_yx', 'a_xy-b_y-c_0', 'a_y-b_xz', 'a_xyz-b_zy-c_x']
     ops = ['take-scalar', 'take-list', 'take-dict', 'take-axisname', 'loc-scalar', 'loc-list', 'sel-scalar', 'ix-scalar', 'ix-list', 'isel-scalar',
            'mean', 'std', 'var', 'median', 'sum', 'take_axis', 'take_axis_pos', 'sort_axis', 'reindex_axis', 'interp_axis',
-           'mean-pos', 'sum-pos', 'median-pos', 'mean-default', 'sum-default', 'reindex_axis-axisobj', 'take-keepdims', 'take-keepdims-axis', 'ix-keepdims', 'interp_axis-fills']
+           'mean-pos', 'sum-pos', 'median-pos', 'mean-default', 'sum-default', 'reindex_axis-axisobj', 'take-keepdims', 'take-keepdims-axis', 'ix-keepdims', 'interp_axis-fills', 'reindex_axis-dspos', 'take_axis-dspos', 'sort_axis-dspos', 'interp_axis-dspos']
     for sname in structs:
         dims = []
         for _, ds_ in STRUCTS[sname]:
@@ -318,6 +340,10 @@ def templates():
                     continue
                 quick = sname in ('a_x-b_yx', 'a_xy-b_y-c_0', 'a_y-b_xz') or op in ('take-scalar', 'mean', 'reindex_axis')
                 add('%s-%s-%s' % (op, sname, dim), 'ds_op', 'quick' if quick else 'thorough', cost=1.5, struct=sname, op=op, dim=dim)
+    # data with NaN (a node next to a NaN sample, NaN rows through reindexing)
+    for sname, dim in (('a_x-b_yx', 'x'), ('a_x', 'x')):
+        for op in ('interp_axis', 'reindex_axis'):
+            add('%s-nan-%s-%s' % (op, sname, dim), 'ds_op', cost=6, struct=sname, op=op, dim=dim, args={'nan': True})
     for sname in ('a_x', 'a_x-b_yx', 'a_xy-b_y-c_0'):
         for op in ('add', 'sub', 'mul', 'div'):
             for other in ('scalar', 'rscalar', 'dataset', 'dataset-free'):
@@ -330,6 +356,8 @@ def templates():
     add('stack_ds-align-a_x', 'ds_join', cost=2, struct='a_x', how='stack', align=True, dim='x')
     add('stack_ds-align-a_x-b_yx', 'ds_join', cost=4, struct='a_x-b_yx', how='stack', align=True, dim='x')
     add('concatenate_ds-align-a_xy-y', 'ds_join', cost=4, struct='a_xy', how='concat', dim='y', align=True)
+    for sname, dim in (('a_x-b_yx', 'x'), ('a_x-b_xy', 'x'), ('a_xy', 'y')):
+        add('concatenate_ds-free-%s-%s' % (sname, dim), 'ds_join', cost=3, struct=sname, how='concat', dim=dim, free_other=True)
     for sname, dim in (('a_x', 'x'), ('a_x-b_yx', 'x'), ('a_xy', 'y'), ('a_xy-b_y-c_0', 'y'), ('a_xyz-b_zy-c_x', 'x')):
         add('concatenate_ds-%s-%s' % (sname, dim), 'ds_join', cost=1, struct=sname, how='concat', dim=dim)
     return ts
